@@ -26,7 +26,7 @@ ASSUMPTIONS = ['content negotiation is judged by acceptability under an independ
                'XML well-formedness only for fields made of XML 1.0 characters',
                'KeyError-style reprs are not used to carry verbatim payloads']
 REQUIRED_REACH = ['format:html', 'format:json', 'format:xml', 'format:text', 'plain-text-fallback', 'accept:absent',
-                  'accept:malformed', 'accept:exact-distinct-q', 'debug-500-parsed', 'debug-404-parsed',
+                  'accept:malformed', 'accept:exact-distinct-q', 'accept:wildcard-q', 'debug-500-parsed', 'debug-404-parsed',
                   'canary-as-text:detail', 'canary-as-text:message', 'canary-as-text:error_type', 'canary-as-text:exc_value',
                   'canary-as-text:path', 'canary-as-text:header', 'canary-as-text:query', 'canary-as-text:local',
                   'status-table-checked', 'instance-code-override', 'href-error-type']
@@ -51,7 +51,9 @@ ACCEPTS = [None, '', 'text/html', 'application/json', 'application/xml', 'text/p
            'application/xml, image/webp;q=0.9', 'text/html,application/xhtml+xml,application/xml;q=0.9,*/*;q=0.8',
            'application/json;q=0.5, application/xml;q=0.7', 'application/json; charset=utf-8', 'text/plain;q=0.001',
            'garbage', ';;;', 'text/html;q=abc', ',', 'a/b/c', 'text/html;;q=1', '*', 'text/html q=1',
-           'image/png;q=0.9, text/plain;q=0.1', 'application/xml;q=1.0, application/json;q=0.999']
+           'image/png;q=0.9, text/plain;q=0.1', 'application/xml;q=1.0, application/json;q=0.999',
+           'text/html;q=0.1, */*', 'application/xml;q=0.2, application/*', 'application/json;q=0.1, text/html;q=0.2, text/*;q=0.9',
+           'text/*;q=0.3, application/json;q=0.2', '*/*;q=0.1, text/plain;q=0.05', 'application/*;q=0.5, text/html;q=0.4, */*;q=0.1']
 
 
 # ---- independent Accept handling (O6) ----------------------------------------------------------
@@ -99,19 +101,27 @@ def judge_format(accept, chosen):
         return None, 'accept:malformed'
     if not ranges:
         return (None if chosen == 'text/plain' else 'no Accept header yet format %s' % chosen), 'accept:absent'
-    acceptable = [m for m in SUPPORTED if any(q > 0 and covers(r, m) for r in [(a, b, q) for a, b, q in ranges] for q in [r[2]])]
-    if not acceptable:
+    # RFC 7231 5.3.2: the quality of a media type is that of the most specific range covering it; the chosen
+    # format must have the highest quality among the four (ties: any of them).  Measured before adopting it: the
+    # unchanged tree agrees with this model on 40 000 random parameter-free headers (DESIGN.md O6, as built).
+    def eff_q(mime):
+        t, s = mime.split('/')
+        best = None
+        for rt, rs, q in ranges:
+            spec = 3 if (rt == t and rs == s) else 2 if (rt == t and rs == '*') else 1 if (rt == '*' and rs == '*') else 0
+            if spec and (best is None or spec > best[0] or (spec == best[0] and q > best[1])):
+                best = (spec, q)
+        return best[1] if best else 0.0
+    qs = dict((m, eff_q(m)) for m in SUPPORTED)
+    top = max(qs.values())
+    wild = any(t == '*' or sub == '*' for t, sub, q in ranges)
+    note = 'accept:wildcard-q' if wild else ('accept:exact-distinct-q' if len(set(q for _, _, q in ranges)) == len(ranges) else 'accept:wellformed')
+    if top == 0:
         return (None if chosen == 'text/plain' else 'nothing acceptable yet format %s' % chosen), 'plain-text-fallback'
-    if chosen not in acceptable:
-        return 'format %s is not acceptable under %r (acceptable: %s)' % (chosen, accept, acceptable), 'accept:wellformed'
-    exact = all(t != '*' and s != '*' for t, s, q in ranges)
-    qs = [q for t, s, q in ranges]
-    if exact and len(set(qs)) == len(qs):
-        best = max((q, '%s/%s' % (t, s)) for t, s, q in ranges if '%s/%s' % (t, s) in SUPPORTED and q > 0)[1]
-        if chosen != best:
-            return 'format %s chosen, %s has the highest q in %r' % (chosen, best, accept), 'accept:exact-distinct-q'
-        return None, 'accept:exact-distinct-q'
-    return None, 'accept:wellformed'
+    if qs.get(chosen, 0) != top:
+        return ('format %s (quality %s) chosen although %s has quality %s under %r'
+                % (chosen, qs.get(chosen, 0), [m for m in qs if qs[m] == top], top, accept)), note
+    return None, note
 
 
 # ---- payloads ------------------------------------------------------------------------------------
